@@ -670,6 +670,12 @@ class SObj(Sym):
     def __setattr__(self, name, value):
         raise Unsupported(f"write to attribute {name} of an opaque symbolic object")
 
+    def __mul__(self, o):
+        sch = OBJ_SCHEMAS.get(self.cls) or {}
+        if "__mul__" not in sch:
+            return NotImplemented
+        return sch["__mul__"](self)(o)
+
     def __call__(self, *a, **k):
         sch = OBJ_SCHEMAS.get(self.cls) or {}
         if "__call__" not in sch:
